@@ -14,8 +14,8 @@ from . import project
 
 def _shares(a, b):
     try:
-        ids = {id(e) for e in a.xml.iter()} | {id(e.attrib) for e in a.xml.iter() if e.attrib}
-        return any(id(e) in ids or (e.attrib and id(e.attrib) in ids) for e in b.xml.iter())
+        ids = {id(e) for e in a.xml.iter()} | {id(e.attrib) for e in a.xml.iter()}
+        return any(id(e) in ids or id(e.attrib) in ids for e in b.xml.iter())
     except Exception:  # noqa: BLE001
         return False
 
